@@ -32,6 +32,7 @@ PROP = "C10"
 THEOREMS = ["C10_loc", "C10_loc_total", "C10_wf_refuted_columne", "C10_wf_partial", "C10_total",
             "C10_data_presence", "C10_data_null_when_aborted", "C10_null_error_match", "C10_extensions_passthrough",
             "C10_no_extensions_invented", "C10_finite", "C10_checkers_decide_spec",
+            "C10_runtime_independent", "C10_wf_every_runtime",
             "C10_exec_errors_are_obligations", "C10_null_error_match_exec", "C10_wf_exec"]
 AXIOMS_OK = []
 RUN_MODULE = "Run.C10run Lang.LocModel Exec.ResponseModel Spec.ResponseSpec Exec.ResponseCheck"
